@@ -300,3 +300,83 @@ func (c *Ctx) c14ListOrder(handlers []*ssa.Function) {
 		r.Ok("C14/LIST/store-order", "listing-path", "", "%d functions between the list handlers and Store.GetMessages; none reorders a slice of messages or metadata", len(fns))
 	}
 }
+
+// c14ReadThrough: what the handlers report is what the store holds now. Every StoreManager
+// method the handlers use consults the store on every path to a success return; an answer
+// produced without a store call (a remembered message) survives removals that did not go
+// through the manager (cap eviction, POP3, retention, the size limit).
+func (c *Ctx) c14ReadThrough() {
+	r, p := c.R, c.P
+	r.Rule("C14/LIVE/read-through", "every path of a StoreManager method that serves the Manager interface from the store (all but Deliver) to a success return passes a call of the storage.Store interface")
+	storeT := p.Named("pkg/storage", "Store")
+	if storeT == nil {
+		return
+	}
+	iface, _ := storeT.Underlying().(*types.Interface)
+	if iface == nil {
+		return
+	}
+	isStoreCall := func(in ssa.Instruction) bool {
+		ci, ok := in.(*ssa.Call)
+		if !ok || !ci.Common().IsInvoke() {
+			return false
+		}
+		for i := 0; i < iface.NumMethods(); i++ {
+			if eng.IsCallTo(ci.Common(), iface.Method(i)) {
+				return true
+			}
+		}
+		return false
+	}
+	// the methods of the Manager interface whose StoreManager implementation uses the store at
+	// all (Deliver is C01's subject)
+	mgrT := p.Named("pkg/message", "Manager")
+	if mgrT == nil {
+		return
+	}
+	mgrI, _ := mgrT.Underlying().(*types.Interface)
+	if mgrI == nil {
+		return
+	}
+	n := 0
+	for i := 0; i < mgrI.NumMethods(); i++ {
+		name := mgrI.Method(i).Name()
+		fn := p.Method("pkg/message", "StoreManager", name)
+		if fn == nil || name == "Deliver" {
+			continue
+		}
+		uses := false
+		for g := range p.SyncReach(fn) {
+			if eng.FuncPkgPath(g) != eng.FuncPkgPath(fn) {
+				continue
+			}
+			eng.EachInstr(g, func(in ssa.Instruction) {
+				if isStoreCall(in) {
+					uses = true
+				}
+			})
+		}
+		if !uses {
+			continue
+		}
+		n++
+		success := func(in ssa.Instruction) bool {
+			ret, ok := in.(*ssa.Return)
+			if !ok || in.Parent() != fn || eng.IsRecoverBlock(ret.Block()) {
+				return false
+			}
+			res := eng.ReturnResults(ret)
+			if len(res) == 0 {
+				return true
+			}
+			e := res[len(res)-1]
+			return !(definitelyNonNilErr(e) || eng.KnownNonNil(e, ret.Block()))
+		}
+		if hit := (&eng.Search{Target: success, Avoid: isStoreCall, Deep: true}).FromEntry(fn); hit != nil {
+			r.Bad("C14/LIVE/read-through", shortFn(fn), p.InstrPos(hit), "%s can answer without consulting the store (success return at %s reached with no storage.Store call): the API keeps reporting a message after it left the store by another route (cap eviction, POP3, retention, size limit), while listing, source and delete say it is gone", shortFn(fn), p.InstrPos(hit))
+		} else {
+			r.Ok("C14/LIVE/read-through", shortFn(fn), p.Pos(fn.Pos()), "every success return follows a call of the store")
+		}
+	}
+	r.Floor("C14/LIVE/read-through", "StoreManager methods examined", n, 1)
+}
